@@ -13,7 +13,9 @@ PROP_FILE = "Properties/C02.v"
 
 TRUSTED = [
     "translator/c02.py (guard lists of Readout.__init__, Readout.times / start_time setters, "
-    "ReadoutProperties.__init__; table of Detector.empty(reset); fails closed on any other shape)",
+    "ReadoutProperties.__init__, incl. the form of the start guard and the numpy-array conversion; table of "
+    "Detector.empty(reset); policy of Detector.set_readout and the wiring of its call in run_pipeline; fails closed on "
+    "any other shape)",
     "correspondence harness: harness/props/c02.py generators, harness/drivers/c02.py, probes/verif_probes_c02.py "
     "(the observing probes read private _array / _frame attributes of the containers)",
     "modelled, not verified: float64 arithmetic on the generated dyadic times is exact (checked per case in the "
@@ -25,6 +27,12 @@ BUCKETS = ("scene", "photon", "charge", "pixel", "signal", "image")
 BNAME = dict(scene="Scene", photon="Photon", charge="Charge", pixel="Pixel", signal="Signal", image="Image")
 WGROUPS = ("photon_collection", "charge_generation", "charge_collection", "charge_measurement", "readout_electronics")
 HISTORIES = ("fresh", "junk", "other_mode", "failed", "failed_other")
+ENTRIES = ("run_mode", "run_exposure", "deprecated_loop")
+DETECTORS = ("ccd", "cmos", "mkid", "apd")
+
+
+def gen_entry(r):
+    return r.choices(ENTRIES, [76, 12, 12])[0]
 
 
 def hx(x: float) -> str:
@@ -79,15 +87,27 @@ NUMPY_EXPRS = [
 ]
 
 
-def gen_times(r, n=None, start=None):
+# decimal increments: sums and differences of such times are NOT exactly representable (binary64 stream)
+FINCS = [0.1, 0.1, 0.2, 0.3, 0.05, 0.7, 1.1, 2.5, 1e-3, 1.0 / 3.0, 0.01, 17.3, 1e-6, 123.456]
+FLOAT_EXPRS = [
+    "numpy.arange(0.1, 1.0, 0.1)", "numpy.linspace(0.1, 2.3, 7)", "numpy.logspace(-3, 2, 6)",
+    "numpy.arange(1, 20) / 10", "numpy.cumsum(numpy.full(8, 0.1))", "numpy.linspace(0.3, 0.9, 4)",
+]
+
+
+def gen_times(r, n=None, start=None, incs=None):
+    incs = incs or INCS
     n = n or r.choice([1, 1, 2, 2, 3, 3, 4, 5, 6, 8, 12])
     if start is None:
-        start = r.choice([0.0, 0.0, 0.0, -1.0, 0.5, 2.0, -0.125, r.randrange(-40, 41) / 8.0])
+        if incs is INCS:
+            start = r.choice([0.0, 0.0, 0.0, -1.0, 0.5, 2.0, -0.125, r.randrange(-40, 41) / 8.0])
+        else:
+            start = r.choice([0.0, 0.0, 0.05, -0.1, 0.3, 1e-3, -2.7, r.uniform(-5, 5)])
     ts, t = [], start
     for _ in range(n):
-        t = t + r.choice(INCS)
+        t = t + r.choice(incs) * (1 if incs is INCS else r.choice([1, 1, 1, 2, 3]))
         if not ts and t == 0.0:
-            t = t + r.choice(INCS)
+            t = t + r.choice(incs)
         ts.append(t)
     return ts, start
 
@@ -122,16 +142,20 @@ def gen_valid_case(r, force=None):
     force = force or {}
     form = force.get("form") or r.choices(
         ["list", "intlist", "tuple", "scalar", "numpy_str", "file_npy", "file_txt", "ndarray"],
-        [30, 6, 8, 8, 12, 8, 8, 3])[0]
+        [30, 6, 8, 8, 12, 8, 8, 8])[0]
     c = dict(form=form, nd=force.get("nd", r.random() < 0.5), ops=[], history=force.get("history") or r.choice(HISTORIES),
-             wgroup=r.choice(WGROUPS), rows=r.choice([1, 2, 3]), cols=r.choice([1, 2, 4]))
+             wgroup=r.choice(WGROUPS), rows=r.choice([1, 2, 3]), cols=r.choice([1, 2, 4]),
+             entry=force.get("entry") or gen_entry(r), detector=r.choices(DETECTORS, [70, 10, 10, 10])[0])
+    incs = FINCS if force.get("float") else INCS
+    if force.get("float"):
+        c["float"] = True       # judged with the binary64 closed form of the clock (Model/ExposureF.v)
     if form == "numpy_str":
-        expr = r.choice(NUMPY_EXPRS)
+        expr = r.choice(FLOAT_EXPRS if force.get("float") else NUMPY_EXPRS)
         ts = numpy_values(expr)
-        start = ts[0] - r.choice(INCS)
+        start = ts[0] - r.choice(incs)
         c["expr"] = expr
     elif form == "scalar":
-        ts, start = gen_times(r, n=1)
+        ts, start = gen_times(r, n=1, incs=incs)
     elif form == "intlist":
         start = float(r.randrange(-5, 6))
         ts, t = [], start
@@ -141,29 +165,32 @@ def gen_valid_case(r, force=None):
                 t += 1.0
             ts.append(t)
     else:
-        ts, start = gen_times(r, n=force.get("n"))
+        ts, start = gen_times(r, n=force.get("n"), incs=incs)
     c["times"], c["start"] = [hx(t) for t in ts], hx(start)
     cur_ts, cur_start = ts, start
     nops = force.get("nops", r.choices([0, 1, 2, 3], [55, 25, 12, 8])[0])
     for _ in range(nops):
         k = r.choices(["set_nd", "set_times", "set_start", "replace_times", "replace_start", "replace_nd"],
-                      [25, 30, 25, 12, 4, 4])[0]
+                      [25, 30, 25, 12, 8, 8])[0]
         if k in ("set_nd", "replace_nd"):
             c["ops"].append([k, r.random() < 0.5])
         elif k in ("set_times", "replace_times"):
-            nts, _ = gen_times(r, start=cur_start)
+            nts, _ = gen_times(r, start=cur_start, incs=incs)
             f = "list" if k == "replace_times" else r.choice(["list", "list", "tuple", "ndarray", "scalar"])
             if f == "scalar":
                 nts = nts[:1]
             c["ops"].append([k, dict(form=f, times=[hx(t) for t in nts])])
             cur_ts = nts
         else:
-            ns = cur_ts[0] - r.choice(INCS)
+            ns = cur_ts[0] - r.choice(incs)
             c["ops"].append([k, hx(ns)])
             cur_start = ns
     fin_ts, fin_start, _ = intended_final(c)
     c["plan"] = gen_plan(r, len(fin_ts))
-    if not all_exact(c):
+    if force.get("float"):
+        if not all(sched_class(*x) is None for x in intended_all(c)):
+            return gen_valid_case(r, force)
+    elif not all_exact(c):
         return gen_valid_case(r, force)
     return c
 
@@ -175,9 +202,43 @@ def all_exact(c) -> bool:
     return True
 
 
+RUN_KEYS = ("form", "times", "expr", "start", "nd", "ops", "plan", "wgroup", "reuse", "tamper", "entry", "sweep")
+
+
+def eff(c):
+    """The run with the construction history of its Readout object made explicit: a run that re-uses the
+    Readout object of the previous run of its session (`reuse`) is the previous object's constructor form
+    and operations followed by its own operations."""
+    if c.get("sweep_value") is not None:
+        # one run of an `observation.readout.times` sweep: readout.replace(times=<value>)
+        base = eff({k: v for k, v in c.items() if k != "sweep_value"})
+        return dict(base, ops=list(base.get("ops", [])) + [["replace_times", dict(form="list", times=[c["sweep_value"]])]])
+    if not c.get("reuse"):
+        return c
+    pre = c.get("pre") or []
+    if not pre:
+        raise ValueError("reuse without a previous run")
+    base = eff(dict(pre[-1], pre=pre[:-1]))
+    d = dict(c, form=base["form"], times=base.get("times", []), start=base["start"], nd=base["nd"],
+             ops=list(base.get("ops", [])) + list(c.get("ops", [])), reuse=False)
+    if base.get("expr") is not None:
+        d["expr"] = base["expr"]
+    return d
+
+
+def final_nd(c) -> bool:
+    c = eff(c)
+    nd = bool(c["nd"])
+    for k, a in c.get("ops", []):
+        if k in ("set_nd", "replace_nd"):
+            nd = bool(a)
+    return nd
+
+
 def intended_all(c):
     """[(times, start, ndim)] of every schedule the caller installs (python mirror of Model.intended_all)."""
-    ts = [fl(t) for t in c.get("times", [])]
+    c = eff(c)
+    ts = [fl(t) for t in (case_times(c) if c["form"] == "numpy_str" else c.get("times", []))]
     start = fl(c["start"])
     ndim = 2 if c["form"] == "list2d" else 1
     out = [(ts, start, ndim)]
@@ -271,7 +332,200 @@ def gen_malformed_cases(r, reps=1):
     return out
 
 
-def gen_cases(ctx: Ctx, n_valid: int, mal_reps: int):
+TAMPER_TARGETS = ("rp.start_time", "rp.time", "rp.time_step", "rp.pipeline_count", "rp.read_out", "det.start_time",
+                  "det.time", "det.time_step", "det.pipeline_count", "junk", "set_readout")
+
+
+def gen_tamper(r, nxt_times, nxt_start, nxt_nd, p=0.5):
+    """Assignments a caller makes on the detector between two runs (public setters only)."""
+    out = []
+    if r.random() >= p:
+        return out
+    for _ in range(r.choice([1, 1, 2, 3])):
+        t = r.choice(TAMPER_TARGETS)
+        if t == "junk":
+            out.append([t, None])
+        elif t == "set_readout":
+            # the caller installs the NEXT run's sampling by hand, but from another start / in the other mode
+            out.append([t, dict(times=[hx(x) for x in nxt_times], start=hx(nxt_times[0] - r.choice(INCS) - 8.0),
+                                nd=(nxt_nd if r.random() < 0.7 else not nxt_nd))])
+        elif t.endswith("pipeline_count"):
+            out.append([t, r.choice([0, 1, 2, 5, -1])])
+        elif t.endswith("read_out"):
+            out.append([t, r.random() < 0.5])
+        else:
+            out.append([t, hx(r.choice([0.0, 1.0, -4.0, 0.5, 64.0, nxt_start + 0.25, nxt_times[0]]))])
+    return out
+
+
+def gen_session(r, n_runs=None, keep=None, reuse=None, tamper_p=0.5, n=None, entry=None):
+    """Several valid runs on ONE detector object. Between consecutive runs each of times / start_time /
+    non_destructive is independently kept or changed (`keep` = list of (times, start, nd) booleans, one per
+    transition); the next run uses the same Readout object (setter calls) or a new, possibly equal-valued one.
+    Returns the judged case = the last run, with the earlier runs under `pre`."""
+    n_runs = n_runs or r.choice([2, 2, 2, 3, 3, 4])
+    first = gen_valid_case(r, dict(form=r.choice(["list", "list", "tuple", "file_npy", "numpy_str", "intlist", "ndarray"]),
+                                   nops=r.choice([0, 0, 1]), n=n))
+    common = dict(history=first.pop("history"), rows=first.pop("rows"), cols=first.pop("cols"),
+                  detector=first.pop("detector"))
+    if entry:
+        first["entry"] = entry
+    runs = [first]
+    for j in range(1, n_runs):
+        prev = dict(runs[-1], pre=runs[:-1])
+        pts, pstart, _ = intended_final(prev)
+        pnd = final_nd(prev)
+        kt, ks, kn = keep[j - 1] if keep else (r.random() < 0.6, r.random() < 0.4, r.random() < 0.6)
+        use_obj = reuse[j - 1] if reuse else (r.random() < 0.5)
+        nstart = pstart
+        while not ks and nstart == pstart:
+            nstart = pts[0] - r.choice(INCS) if kt else pstart + r.choice([-1.0, -0.5, 0.25, 2.0, -8.0])
+        if kt:
+            nts = list(pts)
+            if not nstart < nts[0]:
+                nstart = nts[0] - r.choice(INCS)
+        else:
+            nts, _ = gen_times(r, n=(len(pts) if r.random() < 0.4 else None), start=max(pstart, nstart))
+        nnd = pnd if kn else (not pnd)
+        c = dict(nd=nnd, wgroup=r.choice(WGROUPS), ops=[], entry=entry or gen_entry(r))
+        if use_obj:
+            c.update(reuse=True, form=prev["form"], times=[], start=hx(pstart))
+            if not kt or r.random() < 0.25:
+                c["ops"].append(["set_times", dict(form=r.choice(["list", "tuple", "ndarray"]), times=[hx(t) for t in nts])])
+            if not ks or r.random() < 0.25:
+                c["ops"].append(["set_start", hx(nstart)])
+            if not kn or r.random() < 0.25:
+                c["ops"].append(["set_nd", nnd])
+        else:
+            c.update(form=r.choice(["list", "list", "tuple", "file_npy", "ndarray"]), times=[hx(t) for t in nts],
+                     start=hx(nstart))
+        c["tamper"] = gen_tamper(r, nts, nstart, nnd, tamper_p)
+        c["plan"] = gen_plan(r, len(nts))
+        runs.append(c)
+    case = dict(runs[-1], pre=runs[:-1], **common)
+    if not all(all_exact(dict(runs[j], pre=runs[:j])) and
+               all(sched_class(*x) is None for x in intended_all(dict(runs[j], pre=runs[:j])))
+               for j in range(len(runs))):
+        return gen_session(r, n_runs, keep, reuse, tamper_p, n, entry)
+    return case
+
+
+def gen_session_with_refusal(r):
+    """valid run, then a run with a malformed schedule (refused: nothing may execute), then another valid run on the
+    same detector object -- which must be what it would be alone."""
+    def strip(c):
+        return {k: v for k, v in c.items() if k not in ("history", "rows", "cols", "detector")}
+
+    a = gen_valid_case(r, dict(nops=r.choice([0, 1])))
+    common = dict(history=a["history"], rows=a["rows"], cols=a["cols"], detector=a["detector"])
+    cls, ts, start = r.choice(MALFORMED_TIMES)
+    b = dict(form="list", times=[hx(t) for t in ts], start=hx(start), nd=r.random() < 0.5, ops=[], tamper=[],
+             plan=gen_plan(r, max(1, len(ts))), wgroup=r.choice(WGROUPS), malformed=cls, path="ctor_in_session")
+    c = strip(gen_valid_case(r, dict(nops=0)))
+    c["tamper"] = []
+    return dict(c, pre=[strip(a), b], **common)
+
+
+def gen_sessions(r, n_random: int):
+    out = []
+    # every keep/change pattern of (times, start, nd) between two runs, with the same Readout object and with a
+    # new one; no tampering, so that the previous run's ReadoutProperties object is exactly what set_readout finds
+    for kt in (True, False):
+        for ks in (True, False):
+            for kn in (True, False):
+                for use_obj in (True, False):
+                    out.append(gen_session(r, n_runs=2, keep=[(kt, ks, kn)], reuse=[use_obj], tamper_p=0.0,
+                                           n=r.choice([1, 2, 3, 4])))
+    # the caller writes the NEXT run's start time into the object the detector still carries (public setters),
+    # then runs the same sampling from that start
+    for target in ("rp.start_time", "det.start_time"):
+        for use_obj in (True, False):
+            c = gen_session(r, n_runs=2, keep=[(True, False, True)], reuse=[use_obj], tamper_p=0.0, n=r.choice([1, 2, 3]))
+            c["tamper"] = [[target, hx(intended_final(c)[1])]]
+            out.append(c)
+    # the same schedule three times, start moving both ways
+    out.append(gen_session(r, n_runs=3, keep=[(True, False, True)] * 2, reuse=[True, True], tamper_p=0.0, n=3))
+    out.append(gen_session(r, n_runs=3, keep=[(True, False, True)] * 2, reuse=[False, False], tamper_p=0.0, n=2))
+    for _ in range(n_random):
+        out.append(gen_session(r))
+    for _ in range(max(4, n_random // 8)):
+        out.append(gen_session_with_refusal(r))
+    for c in out:
+        c["judge_all"] = True
+    return out
+
+
+def gen_sessions_exhaustive():
+    """Thorough tier: EVERY two-run session over a small grid -- schedule in {[1], [1,2], [2,3]} x start in {0, 1/2, -1}
+    x mode, for both runs, the second run with the same Readout object (setter calls for what changes) or a new one."""
+    grid = [(ts, st, nd) for ts in ([1.0], [1.0, 2.0], [2.0, 3.0]) for st in (0.0, 0.5, -1.0) for nd in (False, True)]
+    out = []
+    for (t1, s1, n1) in grid:
+        for (t2, s2, n2) in grid:
+            for use_obj in (True, False):
+                first = dict(form="list", times=[hx(t) for t in t1], start=hx(s1), nd=n1, ops=[], wgroup="charge_collection",
+                             plan=[[["pixel", 2, True], ["signal", 5, False]]] * len(t1))
+                second = dict(nd=n2, wgroup="charge_collection", ops=[], tamper=[],
+                              plan=[[["pixel", 3, True], ["image", 4, False]]] * len(t2))
+                if use_obj:
+                    second.update(reuse=True, form="list", times=[], start=hx(s1))
+                    # order of the setter calls: keep every intermediate schedule valid
+                    ops = []
+                    if t2 != t1 and s1 < t2[0]:
+                        ops.append(["set_times", dict(form="list", times=[hx(t) for t in t2])])
+                        if s2 != s1:
+                            ops.append(["set_start", hx(s2)])
+                    elif t2 != t1:
+                        ops.append(["set_start", hx(s2)])
+                        ops.append(["set_times", dict(form="list", times=[hx(t) for t in t2])])
+                    elif s2 != s1:
+                        ops.append(["set_start", hx(s2)])
+                    if n2 != n1:
+                        ops.append(["set_nd", n2])
+                    second["ops"] = ops
+                else:
+                    second.update(form="list", times=[hx(t) for t in t2], start=hx(s2))
+                c = dict(second, pre=[first], history="fresh", rows=1, cols=2, judge_all=True)
+                if all(sched_class(*x) is None for x in intended_all(c)):
+                    out.append(c)
+    return out
+
+
+def gen_observation_case(r, entry=None, key=None, mode=None):
+    """pyxel.run_mode(Observation): run_pipeline once per parameter set, each on a deep copy of the detector (prior
+    state included), with the observation's readout -- or, for a sweep of `observation.readout.times`, with
+    readout.replace(times=<value>)."""
+    c = gen_valid_case(r, dict(form=r.choice(["list", "list", "tuple", "file_npy", "ndarray", "numpy_str"]),
+                               nops=r.choice([0, 0, 1]), entry=entry or r.choice(["observation", "observation_dask"])))
+    key = key or r.choice(["temperature", "times"])
+    fts, fstart, _ = intended_final(c)
+    sw = dict(key=key, mode=mode or r.choice(["product", "sequential"]))
+    if c["entry"] == "observation_dask":
+        sw["scheduler"] = r.choice(["synchronous", "threads"])
+    if key == "temperature":
+        sw["values"] = sorted(r.sample([80.0, 120.0, 160.0, 200.0, 240.0], r.choice([2, 2, 3])))
+    else:
+        vals = []
+        while len(vals) < r.choice([2, 3, 4]):
+            v = fstart + r.choice(INCS) * r.choice([1, 2, 3, 7])
+            if v != 0.0 and v not in vals and exact_ok([v], fstart):
+                vals.append(v)
+        sw["values"] = [hx(v) for v in vals]
+    c["sweep"] = sw
+    return c
+
+
+def gen_observations(r, n_random: int):
+    out = []
+    for entry in ("observation", "observation_dask"):
+        for key in ("temperature", "times"):
+            for mode in ("product", "sequential"):
+                out.append(gen_observation_case(r, entry, key, mode))
+    out += [gen_observation_case(r) for _ in range(n_random)]
+    return out
+
+
+def gen_cases(ctx: Ctx, n_valid: int, mal_reps: int, n_sessions: int = 0, n_observations: int = 0, n_float: int = 0):
     r = ctx.rng("cases")
     cases = []
     # every (history, mode) pair with a multi-step pixel-accumulating plan: the leak / flag mutations
@@ -295,6 +549,15 @@ def gen_cases(ctx: Ctx, n_valid: int, mal_reps: int):
     while len(cases) < n_valid:
         cases.append(gen_valid_case(r))
     cases += gen_malformed_cases(r, mal_reps)
+    cases += gen_sessions(ctx.rng("sessions"), n_sessions)
+    cases += gen_observations(ctx.rng("observations"), n_observations)
+    rf = ctx.rng("binary64")
+    for k in range(n_float):
+        # no text files here: pandas' default decimal parser is not round-trip exact (1 ulp off on long decimals),
+        # which is the file reader's business, not the clock's
+        form = ["list", "tuple", "numpy_str", "file_npy", "ndarray", "scalar"][k % 6] if k < 12 else \
+            rf.choice(["list", "list", "tuple", "numpy_str", "file_npy", "ndarray", "scalar"])
+        cases.append(gen_valid_case(rf, dict(form=form, float=True)))
     return cases
 
 
@@ -362,7 +625,24 @@ def cobs(o) -> str:
             f"{core.cbool(ck['is_last_readout'])} {cdet(o['begin'])} {cdet(o['end'])})")
 
 
+def crp(rp) -> str:
+    if rp is None:
+        return "None"
+    return ("(Some (mkrp " + core.clist(ctv(t) for t in rp["times"]) + " " + core.clist(ctv(t) for t in rp["steps"]) +
+            f" {core.cz(int(rp['num']))} {ctv(rp['start'])} {core.cbool(bool(rp['nd']))} {ctv(rp['time'])} "
+            f"{ctv(rp['step'])} {core.cz(int(rp['count']))}))")
+
+
+def cafter(o) -> str:
+    """The detector state found right after the run (compared with the state the object-level model leaves);
+    not available for an Observation (it runs on copies) and not compared after an exception raised mid-run."""
+    if "d1" not in o or (o.get("stage") is not None and o.get("executed", 0) > 0):
+        return "None"
+    return f"(Some ({cdet(o['d1'])}, {crp(o.get('rp1'))}))"
+
+
 def emit_case(c, o) -> str:
+    c = eff(c)
     if o.get("stage") is None:
         obs = "(IRan " + core.clist(cobs(x) for x in o["obs"]) + ")"
     else:
@@ -371,23 +651,59 @@ def emit_case(c, o) -> str:
     return ("{| k_form := " + ("FNdarray" if c["form"] == "ndarray" else "FList") +
             f"; k_raw := {craw(c['form'], case_times(c))}; k_start := {ctv(c['start'])}; "
             f"k_nd := {core.cbool(bool(c['nd']))}; k_ops := {core.clist(cop(k, a) for k, a in c.get('ops', []))}; "
-            f"k_d0 := {cdet(o['d0'])}; k_plan := {plan}; k_obs := {obs} |}}")
+            f"k_d0 := {cdet(o['d0'])}; k_rp0 := {crp(o.get('rp0'))}; k_plan := {plan}; k_obs := {obs}; "
+            f"k_after := {cafter(o)} |}}")
 
 
-def emit_file(pairs) -> str:
+def emit_file(pairs, binary64=False) -> str:
+    """binary64: the cases are judged with the binary64 closed form of the clock (steps and absolute time rounded to
+    nearest-even, Model/ExposureF.v) instead of the exact rational one."""
     body = ";\n  ".join(emit_case(c, o) for c, o in pairs)
-    return ("From Coq Require Import QArith ZArith List.\nFrom PyxelV Require Import Model.Exposure.\n"
+    sfx = "_f" if binary64 else ""
+    return ("From Coq Require Import QArith ZArith List.\nFrom PyxelV Require Import Model.Exposure"
+            + (" Model.ExposureF" if binary64 else "") + ".\n"
             "From PyxelGen Require Import Gen_C02.\nImport ListNotations.\n"
             f"Definition cases : list c02_case := [\n  {body}\n].\n"
-            "Eval vm_compute in mismatches src_guards src_empty cases.\n"
-            "Eval vm_compute in violations cases.\n")
+            f"Eval vm_compute in mismatches{sfx} src_guards src_empty src_set_readout cases.\n"
+            f"Eval vm_compute in violations{sfx} cases.\n"
+            f"Eval vm_compute in after_differs{sfx} src_guards src_empty src_set_readout cases.\n")
 
 
 # ------------------------------------------------------------------------------------------ classification
 
 
+def relation(c) -> str:
+    """How the run relates to the previous run made on the same detector object."""
+    pre = c.get("pre") or []
+    if not pre:
+        return "first_run"
+    prev = dict(pre[-1], pre=pre[:-1])
+    pts, pstart, _ = intended_final(prev)
+    ts, start, _ = intended_final(c)
+    same = lambda a, b: a == b or (a != a and b != b)  # noqa: E731
+    return ("times_" + ("same" if len(ts) == len(pts) and all(same(a, b) for a, b in zip(ts, pts)) else "changed") +
+            ",start_" + ("same" if same(start, pstart) else "changed") +
+            ",mode_" + ("same" if final_nd(c) == final_nd(prev) else "changed") +
+            ",readout_object_" + ("same" if c.get("reuse") else "new"))
+
+
 def classify(c, o):
     """(clause, sig-extras, what) of a case the Coq specification flagged (python side: naming only)."""
+    clause, extra, what = classify1(c, o)
+    if str(c.get("entry", "")).startswith("observation"):
+        extra = dict(extra, entry=c["entry"], sweep=c["sweep"]["key"])
+        what += (f" -- one pipeline of pyxel.run_mode(Observation, with_dask={c['entry'] == 'observation_dask'}) sweeping "
+                 f"{c['sweep']['key']} over {[fl(v) if isinstance(v, str) else v for v in c['sweep']['values']]}"
+                 + (f", this pipeline: readout.times = {fl(c['sweep_value'])}" if c.get("sweep_value") is not None else ""))
+    if c.get("pre") and clause in ("clock", "step_start_buckets", "once_per_time", "unclassified"):
+        what += (f" -- run {len(c['pre']) + 1} of a session on one detector object; relative to the previous run: "
+                 f"{relation(c)}; caller's assignments before this run: {c.get('tamper') or 'none'}")
+    return clause, extra, what
+
+
+def classify1(c, o):
+    full = c
+    c = eff(c)
     alls = intended_all(c)
     fts, fstart, fnd = alls[-1]
     fin_cls = sched_class(fts, fstart, fnd)
@@ -407,10 +723,7 @@ def classify(c, o):
         return "invalid_accepted", dict(defect=fin_cls.replace("_repaired", ""), path=path), \
             f"invalid schedule ({fin_cls}) times={fts} start={fstart} was run ({len(o['obs'])} step(s) executed)"
     # ran on a valid schedule: which closed form fails?
-    nd = bool(c["nd"])
-    for k, a in c.get("ops", []):
-        if k in ("set_nd", "replace_nd"):
-            nd = bool(a)
+    nd = final_nd(c)
     obs = o["obs"]
     if len(obs) != len(fts):
         return "once_per_time", dict(), f"{len(obs)} steps executed for {len(fts)} readout times"
@@ -428,13 +741,13 @@ def classify(c, o):
             if b[bk] is not None:
                 kind = "leak_from_history" if (i == 0) else "not_emptied"
                 return "step_start_buckets", dict(bucket=bk, kind=kind, mode="nd" if nd else "destructive"), \
-                    f"step {i}: {bk} holds {b[bk]} at the start of the step (history={c.get('history')})"
+                    f"step {i}: {bk} holds {b[bk]} at the start of the step (history={full.get('history')})"
         exp_px = 0 if (i == 0 or not nd) else prev_end["pixel"]
         if b["pixel"] != exp_px:
             kind = "leak_from_history" if i == 0 else ("pixel_lost" if nd else "pixel_kept")
             return "step_start_buckets", dict(bucket="pixel", kind=kind, mode="nd" if nd else "destructive"), \
                 f"step {i}: pixel = {b['pixel']} at the start of the step, expected {exp_px} " \
-                f"(non_destructive={nd}, history={c.get('history')})"
+                f"(non_destructive={nd}, history={full.get('history')})"
         prev_t, prev_end = t, ob["end"]
     return "unclassified", dict(), "the Coq specification rejects the observations"
 
@@ -456,48 +769,163 @@ def to_violation(c, o) -> Violation:
 PER_FILE = 80
 
 
+def expand(c, o):
+    """The (case, observation) pairs judged for one driver result: the run itself; its second clock view if the
+    two public views differ; for an Observation one pair per executed pipeline (detector copy)."""
+    out = []
+
+    def add_pair(cc, oo):
+        out.append((cc, oo))
+        if oo.get("obs_rp"):
+            # detector.<clock property> and detector.readout_properties.<clock property> disagree
+            out.append((dict(cc, view="readout_properties"), dict(oo, obs=oo["obs_rp"])))
+
+    if o.get("stage") is not None or "groups" not in o:
+        if c.get("sweep") and c["sweep"]["key"] == "times" and o.get("stage") is not None:
+            c = dict(c, sweep_value=c["sweep"]["values"][0])
+        add_pair(c, o)
+        return out
+    sw, groups = c["sweep"], o["groups"]
+    base = {k: o[k] for k in ("stage", "executed", "d0", "rp0")}
+    dask = c.get("entry") == "observation_dask"
+    if sw["key"] == "temperature":
+        for g in groups:
+            add_pair(c, dict(base, obs=g["obs"], **({"obs_rp": g["obs_rp"]} if g.get("obs_rp") else {})))
+        # dask runs the first parameter set once more, eagerly, to learn the structure of the result
+        if len(groups) not in ((len(sw["values"]), len(sw["values"]) + 1) if dask else (len(sw["values"]),)):
+            add_pair(dict(c, view="number_of_pipelines"), dict(base, obs=[]))
+        return out
+    seen = set()
+    for k, g in enumerate(groups):
+        if dask:
+            match = [v for v in sw["values"] if [v] == g["rp_times"]]
+            v = match[0] if match else sw["values"][0]
+        else:
+            v = sw["values"][min(k, len(sw["values"]) - 1)]
+        seen.add(v)
+        add_pair(dict(c, sweep_value=v), dict(base, obs=g["obs"], **({"obs_rp": g["obs_rp"]} if g.get("obs_rp") else {})))
+    for v in sw["values"]:
+        if v not in seen:       # a swept value for which no pipeline ran
+            add_pair(dict(c, sweep_value=v, view="value_not_run"), dict(base, obs=[]))
+    if not dask and len(groups) != len(sw["values"]):
+        add_pair(dict(c, sweep_value=sw["values"][0], view="number_of_pipelines"), dict(base, obs=[]))
+    return out
+
+
 def evaluate(ctx: Ctx, cases, tag="c", count=True):
     """Run implementation + Coq on the cases. Returns (mismatching, violating, pairs)."""
-    payload = [{k: v for k, v in c.items() if k not in ("malformed", "path", "view")} for c in cases]
+    payload = [dict({k: v for k, v in c.items() if k not in ("malformed", "path", "view", "judge_all", "sweep_value")},
+                    all_runs=bool(c.get("judge_all"))) for c in cases]
     obs = core.run_driver(ctx, "c02", payload, workers=8)
     pairs = []
+
+    def add_pair(c, o):
+        pairs.extend(expand(c, o))
+
     for c, o in zip(cases, obs):
         if "crash" in o or "driver_error" in o:
             ctx.broken.append(Broken("correspondence", "implementation driver failed", json.dumps(o)[:600], c))
             continue
-        pairs.append((c, o))
-        if o.get("obs_rp"):
-            # detector.<clock property> and detector.readout_properties.<clock property> disagree
-            pairs.append((dict(c, view="readout_properties"), dict(o, obs=o["obs_rp"])))
-    files = {}
-    for k in range(0, len(pairs), PER_FILE):
-        files[f"{tag}_{k // PER_FILE:03d}"] = emit_file(pairs[k:k + PER_FILE])
+        if c.get("judge_all"):
+            # a session: every run is judged, each as the case "this run after those runs"
+            runs = list(c.get("pre") or []) + [{k: v for k, v in c.items() if k in RUN_KEYS}]
+            common = {k: v for k, v in c.items() if k not in RUN_KEYS and k not in ("pre", "judge_all")}
+            for j, oj in enumerate(o["outs"]):
+                add_pair(dict(runs[j], pre=runs[:j], **common), oj)
+        else:
+            add_pair(c, o)
+    files, chunks = {}, {}
+    for binary64, sub in ((False, [p for p in pairs if not p[0].get("float")]),
+                          (True, [p for p in pairs if p[0].get("float")])):
+        for k in range(0, len(sub), PER_FILE):
+            name = f"{tag}{'f' if binary64 else ''}_{k // PER_FILE:03d}"
+            files[name] = emit_file(sub[k:k + PER_FILE], binary64)
+            chunks[name] = sub[k:k + PER_FILE]
     res = core.coq_eval_many(ctx, files, timeout=600, par=8)
     mism, viol = [], []
-    for k, name in enumerate(sorted(files)):
+    for name in sorted(files):
         ok, evals, se = res[name]
-        chunk = pairs[k * PER_FILE:(k + 1) * PER_FILE]
-        if not ok or len(evals) != 2:
+        chunk = chunks[name]
+        if not ok or len(evals) != 3:
             ctx.broken.append(Broken("correspondence", f"case file {name}.v did not evaluate", core.tail(se, 15)))
             continue
         mism += [chunk[i] for i in core.parse_int_list(evals[0])]
         viol += [chunk[i] for i in core.parse_int_list(evals[1])]
+        if count:
+            # informational: does the detector object end up in the state the object-level model predicts?
+            ctx.count("state_after_run_compared", sum(1 for _, o in chunk if cafter(o) != "None"))
+            ctx.count("state_after_run_differs_from_model", len(core.parse_int_list(evals[2])))
     if count:
         for c, o in pairs:
             ctx.count("evaluations")
             ctx.count("steps_observed", len(o.get("obs") or []))
-            ctx.dist("form", c["form"])
+            ctx.dist("form", eff(c)["form"])
             ctx.dist("history", c.get("history"))
-            ctx.dist("mode", "non_destructive" if c["nd"] else "destructive")
+            ctx.dist("earlier_runs_on_the_detector", len(c.get("pre") or []))
+            if c.get("pre"):
+                ctx.dist("session_transition", relation(c))
+                ctx.dist("tamper", ",".join(sorted({t for t, _ in c.get("tamper") or []})) or "-")
+            ctx.dist("mode", "non_destructive" if final_nd(c) else "destructive")
             ctx.dist("readouts", len(intended_final(c)[0]))
-            ctx.dist("ops", len(c.get("ops", [])))
+            ctx.dist("ops", len(eff(c).get("ops", [])))
             ctx.dist("malformed", c.get("malformed", "-"))
+            ctx.dist("arithmetic", "binary64_rounded" if c.get("float") else "exact_dyadic")
+            ctx.dist("entry", c.get("entry", "run_mode"))
+            if c.get("sweep"):
+                ctx.dist("observation_sweep", f"{c['sweep']['key']},{c['sweep'].get('mode')},{c['sweep'].get('scheduler', '-')}")
+            ctx.dist("detector", c.get("detector", "ccd"))
             ctx.dist("outcome", "ran" if o.get("stage") is None else f"rejected_stage_{o['stage']}")
     return mism, viol, pairs
 
 
+def flat(c, **kw):
+    """The run alone: its Readout construction made explicit, no earlier runs, no tampering."""
+    d = {k: v for k, v in eff(c).items() if k not in ("pre", "reuse", "tamper", "judge_all")}
+    d.update(kw)
+    return d
+
+
+def shrink_session(ctx: Ctx, c, o):
+    """A violating run that has earlier runs on its detector: does it violate alone? with only the previous run?"""
+    clause = classify1(c, o)[0]
+    pre = c["pre"]
+    prev = flat(dict(pre[-1], pre=pre[:-1]), plan=[])
+    for k in ("history", "rows", "cols", "malformed", "path", "view"):
+        prev.pop(k, None)
+    cands = [flat(c), flat(c, history="fresh", rows=1, cols=1)]
+    for hist in ("fresh", c.get("history", "fresh")):
+        for tamper in ([], c.get("tamper") or []):
+            for plan in ([], c.get("plan", [])):
+                cands.append(dict(c, pre=[prev], tamper=tamper, plan=plan, history=hist, rows=1, cols=1))
+                cands.append(dict(c, pre=[dict(prev, tamper=(pre[-1].get("tamper") or []))], tamper=tamper, plan=plan,
+                                  history=hist, rows=1, cols=1))
+    tam = c.get("tamper") or []
+    if len(tam) > 1:
+        subs = [[t] for t in tam] + [[a, b] for i, a in enumerate(tam) for b in tam[i + 1:]]
+        for sub in subs[:12]:
+            cands.append(dict(c, pre=[prev], tamper=sub, plan=[], history="fresh", rows=1, cols=1))
+    for d in cands:
+        d.pop("judge_all", None)
+    _, viol, _ = evaluate(ctx, cands, tag="shs", count=False)
+    best = None
+    for cc, oo in viol:
+        if classify1(cc, oo)[0] == clause:
+            size = (len(cc.get("pre") or []), len(cc.get("tamper") or []) + sum(len(x.get("tamper") or []) for x in cc.get("pre") or []),
+                    sum(len(st) for st in cc.get("plan", [])), 0 if cc.get("history") == "fresh" else 1)
+            if best is None or size < best[0]:
+                best = (size, cc, oo)
+    return (best[1], best[2]) if best else (c, o)
+
+
 def shrink(ctx: Ctx, c, o):
     """Smaller neighbours of a violating case; keep the smallest that still violates with the same clause."""
+    if str(c.get("entry", "")).startswith("observation"):
+        return c, o
+    if c.get("pre"):
+        c, o = shrink_session(ctx, c, o)
+        if c.get("pre"):
+            return c, o         # the earlier run is part of the failing input
+    c = eff(c)
     clause = classify(c, o)[0]
     cands = []
 
@@ -508,10 +936,7 @@ def shrink(ctx: Ctx, c, o):
 
     alls = intended_all(c)
     fts, fstart, _ = alls[-1]
-    final_nd = bool(c["nd"])
-    for k, a in c.get("ops", []):
-        if k in ("set_nd", "replace_nd"):
-            final_nd = bool(a)
+    fnd = final_nd(c)
     base_forms = c["form"] if c["form"] in ("ndarray", "list2d") else "list"
     if clause in ("clock", "step_start_buckets", "once_per_time") and sched_class(fts, fstart) is None:
         px = [[["pixel", 3, True]] for _ in fts]
@@ -520,8 +945,8 @@ def shrink(ctx: Ctx, c, o):
                 for hist in ("fresh", c.get("history", "fresh")):
                     for plan in ([[] for _ in range(n)], px[:n], c.get("plan", [])[:n]):
                         cands.append(dict(form=base_forms, times=[hx(t) for t in fts[:n]], start=hx(fstart),
-                                          nd=final_nd, ops=[], plan=plan, history=hist, wgroup=c.get("wgroup"),
-                                          rows=1, cols=1))
+                                          nd=fnd, ops=[], plan=plan, history=hist, wgroup=c.get("wgroup"),
+                                          rows=1, cols=1, **{k: c[k] for k in ("entry", "detector", "float") if c.get(k)}))
     else:
         add(plan=[], history="fresh", rows=1, cols=1)
         if len(c.get("ops", [])) > 1:
@@ -559,7 +984,15 @@ def record(ctx: Ctx, mism, viol, do_shrink=True):
             v = to_violation(c2, o2)
         seen.add(key)
         ctx.violations.append(v)
+    known_keys = set()
+    for c, o in viol:
+        if any(core.finding_matches(e, to_violation(c, o)) for e in fs):
+            known_keys.add(json.dumps(c, sort_keys=True))
     for c, o in mism:
+        if json.dumps(c, sort_keys=True) in known_keys:
+            # the model describes the intended behaviour here; the divergence is the recorded open defect
+            ctx.count("mismatches_explained_by_known_findings")
+            continue
         has_nan = any(any(t != t for t in ts) or st != st for ts, st, _ in intended_all(c))
         if has_nan and o.get("stage") == 2 and o.get("executed", 0) > 0:
             # NaN is outside what the model of the run carries (the loop itself runs; the crash comes from
@@ -567,7 +1000,7 @@ def record(ctx: Ctx, mism, viol, do_shrink=True):
             ctx.count("nan_midrun_crashes_not_compared")
             continue
         ctx.broken.append(Broken("correspondence", "Model/Exposure.v vs implementation",
-                                 f"model and implementation differ (form={c['form']}, ops={[k for k, _ in c.get('ops', [])]}, "
+                                 f"model and implementation differ (form={eff(c)['form']}, ops={[k for k, _ in eff(c).get('ops', [])]}, earlier_runs={len(c.get('pre') or [])}, "
                                  f"impl stage={o.get('stage')}, executed={o.get('executed')})",
                                  dict(case=c, observed=o)))
 
@@ -598,16 +1031,22 @@ def run(ctx: Ctx):
         if not ok:
             ctx.broken.append(Broken("theorem", "coqchk of Properties/C02.v", core.tail(out, 20)))
 
-    cases = gen_cases(ctx, ctx.budget(260, 1500), ctx.budget(1, 3))
+    cases = gen_cases(ctx, ctx.budget(260, 1500), ctx.budget(1, 3), ctx.budget(40, 300), ctx.budget(8, 80),
+                      ctx.budget(60, 400))
+    if not ctx.quick:
+        ex = gen_sessions_exhaustive()
+        ctx.cov["exhaustive_two_run_sessions"] = len(ex)
+        cases += ex
     mism, viol, pairs = evaluate(ctx, cases)
     distinct = set()
     for c, o in pairs:
         n = len(intended_final(c)[0])
-        if n >= 2 or c.get("history") != "fresh" or c.get("malformed") or c.get("ops"):
+        if n >= 2 or c.get("history") != "fresh" or c.get("malformed") or c.get("ops") or c.get("pre"):
             distinct.add(json.dumps({k: c[k] for k in sorted(c)}, sort_keys=True))
     ctx.cov["distinct_nontrivial"] = len(distinct)
     ctx.cov["rule"] = ("distinct scenarios (constructor form + operations + mode + write plan + prior history) with >= 2 "
-                       "readouts, or a non-fresh detector, or setter/replace operations, or a malformed schedule")
+                       "readouts, or a non-fresh detector (junk / earlier runs of a session), or setter/replace operations, or a "
+                       "malformed schedule; every run of a session counts as one scenario (the run after its earlier runs)")
     ctx.cov["traces_validated_against_impl"] = len(pairs)
     ctx.cov["disagreements_checked"] = len(mism)
     ctx.cov["exhaustive"] = False
@@ -633,6 +1072,7 @@ def search(ctx: Ctx):
                 cases.append(gen_valid_case(r, dict(history=h, nd=nd, form="list", n=n)))
     for _ in range(400):
         cases.append(gen_valid_case(r))
+    cases += gen_sessions(r, 150)
     mism, viol, pairs = evaluate(ctx, cases, tag="s")
     ctx.cov["search_cases"] = len(pairs)
     record(ctx, [], viol)
@@ -652,49 +1092,61 @@ def replay(ctx: Ctx, rp: dict) -> int:
     except core.TranslationError:
         text = tr.FALLBACK
     (gen / "Gen_C02.v").write_text(text)
-    core.ensure_lib(ctx, targets=["theories/Model/Exposure.vo"])
+    core.ensure_lib(ctx, targets=["theories/Model/Exposure.vo", "theories/Model/ExposureF.vo"])
     core.coqc(ctx, gen / "Gen_C02.v", [(gen, "PyxelGen")])
-    payload = {k: v for k, v in case.items() if k not in ("malformed", "path", "view")}
+    payload = {k: v for k, v in case.items() if k not in ("malformed", "path", "view", "sweep_value", "judge_all")}
     o = core.run_driver(ctx, "c02", [payload], workers=1)[0]
-    if case.get("view") == "readout_properties" and o.get("obs_rp"):
-        o = dict(o, obs=o["obs_rp"])
     print("case:", json.dumps(case))
     print("implementation now does:", json.dumps(o)[:1500])
     if "crash" in o or "driver_error" in o:
         print("driver failed")
         return 1
-    ok, evals, se = core.coq_eval(ctx, "replay", emit_file([(case, o)]))
-    if not ok or len(evals) != 2:
+    base = {k: v for k, v in case.items() if k not in ("view", "sweep_value")}
+    pairs = expand(base, o)       # the run, its second clock view, every pipeline of an Observation
+    ok, evals, se = core.coq_eval(ctx, "replay", emit_file(pairs, bool(case.get("float"))))
+    if not ok or len(evals) != 3:
         print("case file did not evaluate:", core.tail(se, 10))
         return 1
-    bad = core.parse_int_list(evals[1]) != []
-    if bad:
-        print("classified as:", classify(case, o)[2])
+    idx = core.parse_int_list(evals[1])
+    bad = idx != []
+    for i in idx[:3]:
+        print("classified as:", classify(*pairs[i])[2])
     print("specification (evaluated in Coq):", "VIOLATED" if bad else "holds")
     return 1 if bad else 0
 
 
 META = dict(
     level_text=(
-        "Coq theorems, for schedules of any length, any rational times/start, both modes, arbitrary per-step writer "
-        "programs, arbitrary prior detector contents and arbitrary sequences of Readout setter/replace operations, over "
-        "an executable model of Readout.__init__/setters/replace, ReadoutProperties.__init__, calculate_steps, "
-        "run_pipeline's loop and Detector.empty(reset): one step per time in order; the clock tuple at step i; the "
-        "telescoping sum of the steps (exported for C17); bucket state at every step start; independence from the prior "
-        "detector state; rejection of every invalid NaN-free schedule before any model runs on every path. The guard "
-        "lists of the four validation sites and the table of Detector.empty are regenerated from the source on every "
-        "run and the theorems are re-checked against them. That the Python behaves like the model is established by "
-        "correspondence (testing): real exposures through pyxel.run_mode with observing probes first/last in every step "
-        "are compared with the model, and judged against the specification, inside Coq. Two full statements are "
-        "refuted by the faithful model and kept visible: NaN times/start pass every guard; Readout(times=<ndarray>) and "
-        "Readout.replace() refuse valid schedules (known findings)."),
+        "Coq theorems, for schedules of any length, any rational or NaN times/start, both modes, arbitrary per-step "
+        "writer programs, arbitrary prior detector state (six buckets AND the ReadoutProperties object the detector "
+        "carries: sampling, start, mode, running clock), arbitrary sequences of Readout setter/replace operations, every "
+        "form of `times` (list/tuple/scalar/expression/file/numpy array) and arbitrary SESSIONS of several runs on one "
+        "detector object with arbitrary changes of the detector by the caller in between, over an executable model of "
+        "Readout.__init__/setters/replace, ReadoutProperties.__init__, Detector.set_readout, calculate_steps, "
+        "run_pipeline's loop (storing the clock into / reading it from the ReadoutProperties object) and "
+        "Detector.empty(reset): one step per time in order; the clock tuple at step i; the telescoping sum of the steps "
+        "(exported for C17); bucket state at every step start; the object-level run refines the functional run; "
+        "independence from the whole prior detector state; every run of every session equals the same run alone on a "
+        "blank detector; EVERY invalid schedule (NaN included) is rejected before any model runs on every path and leaves "
+        "the detector untouched; a caller who only installs valid schedules is never refused (numpy arrays and "
+        "replace() included). The guard lists of the four validation sites (with the form of the start guard: negative "
+        "`start >= t0` lets NaN through, positive `not start < t0` refuses it), whether the constructor converts numpy "
+        "arrays, the table of Detector.empty and the policy of Detector.set_readout (always a new ReadoutProperties "
+        "from its arguments) are regenerated from the source on every run and the theorems are re-checked against "
+        "them. That the Python behaves like the model is established by correspondence (testing): real exposures "
+        "(pyxel.run_mode, Exposure.run_exposure, the deprecated loop; CCD/CMOS/MKID/APD), single runs and sessions of 2-4 "
+        "runs on one detector object, with observing probes first/last in every step, are compared with the "
+        "object-level model started from the observed detector state, and judged against the specification, inside Coq."),
     level_note=(
         "Trusted: Coq kernel + vm_compute; translator/c02.py; the correspondence harness and probes; exactness of float "
         "arithmetic on the generated dyadic times (checked per case); numpy expression / file readers return what the "
-        "harness computes with the same numpy. Not carried: rounding of np.diff for non-dyadic times; models that "
-        "themselves tamper with the clock or call detector.empty(); 'non-zero times' is read as 'first time non-zero' "
-        "(as coded and as in DESIGN)."),
-    technique="Coq proof (induction over the time list, telescoping) over an executable model + regenerated guard/empty "
-              "tables + in-Coq correspondence/spec evaluation of real exposure runs",
+        "harness computes with the same numpy. Not carried: rounding of np.diff for non-dyadic times; infinite times; "
+        "models that themselves tamper with the clock or call detector.empty(); 'non-zero times' is read as 'first time "
+        "non-zero' (as coded and as in DESIGN). Repaired in round 2 (fix: commits): C02-F18 (numpy array as `times`, "
+        "Readout.replace) and C02-NaN (NaN passed every guard); against a tree without these repairs the full theorems "
+        "fail and the check reports the concrete failing inputs."),
+    technique="Coq proof (induction over the time list, telescoping, refinement of the object-level run, induction over "
+              "sessions) over an executable model + regenerated guard/empty/set_readout tables + in-Coq "
+              "correspondence/spec evaluation of real exposure runs and multi-run sessions",
     design_ref="DESIGN.md section 6, C02",
 )
